@@ -1,6 +1,7 @@
 """C16: conformance is a preorder, coercion conforms - structural rules on feel/src/types.rs (DESIGN §3 C16)."""
 import json
 
+import re
 import hirflow
 from facts import find_hir, strip
 
@@ -271,6 +272,7 @@ def run(F, rep, tier):
                               "list<T> and is coerced to null" % (describe(d) if False else inner[:80], line), "%s:%s" % (tof["file"], line))
 
     list_type_fold_rule(F, rep)
+    quantifier_rule(F, rep, (("is_equivalent", eqv), ("is_conformant", cnf)))
     # ---- R16.4
     fl = hirflow.Flow(coe)
     outs = list(fl.returns)
@@ -338,6 +340,54 @@ def run(F, rep, tier):
         rep.violation(r4, "coerced:tail", "coerced's fall-through result is not null", FILE)
     else:
         rep.ok(r4, "coerced:tail", "falls through to null")
+
+
+def quantifier_rule(F, rep, fns):
+    """R16.7: two compound types are related when *all* their corresponding components are: written with iterator adaptors, the component relation must stand under a
+    universal quantifier with positive polarity - `xs.zip(ys).all(|(x, y)| x.rel(y))`, or its De Morgan dual `!xs.zip(ys).any(|(x, y)| !x.rel(y))`.  The forms
+    `any(.. rel ..)`, `!all(.. !rel ..)` (some pair related) and `all(.. !rel ..)` are positive evidence of a wrong quantifier.  And the entries of two *context* types
+    correspond by name: the other side's entry type is looked up with the name of this side's entry (or the names are compared); pairing `values()` of both maps by
+    position relates entries of different names."""
+    rid = rep.rule("R16.7", "components of compound types are related under a universal quantifier of positive polarity, context entries are paired by name (not by position)")
+    n = 0
+    for nm, h in fns:
+        rec = (T + "::is_equivalent", T + "::is_conformant")
+        for q, parents in find_hir(h["body"], lambda x: x.get("k") == "MethodCall" and x.get("method") in ("all", "any") and "Iterator" in (x.get("callee") or "") and x.get("args")
+                                   and x["args"][0].get("k") == "Closure"):
+            clo = q["args"][0]
+            calls = find_hir(clo["body"], lambda x: x.get("k") == "MethodCall" and x.get("callee") in rec)
+            if not calls:
+                continue
+            n += 1
+            outer = sum(1 for p_ in parents if p_.get("k") == "Unary" and p_.get("op") == "!")
+            # negations between the closure body and the recursive call (matches!(.., Some(t) if a.rel(t)) keeps the polarity)
+            inner = sum(1 for p_ in calls[0][1] if p_.get("k") == "Unary" and p_.get("op") == "!")
+            universal = (q["method"] == "all") == (outer % 2 == 0)
+            positive = (inner % 2 == 0) == (outer % 2 == 0)
+            key = "quantifier:%s:%s" % (nm, q.get("l"))
+            if universal and positive:
+                rep.ok(rid, "quantifier:%s#%d" % (nm, n), "for all pairs: related (%s%s)" % ("!" if outer % 2 else "", q["method"]))
+            else:
+                rep.violation(rid, "quantifier:%s" % nm, "%s relates the components with `%s%s(.. %srel ..)` (line %s): that is %s, not 'all pairs are related'" % (
+                    nm, "!" if outer % 2 else "", q["method"], "!" if inner % 2 else "",
+                    q.get("l"), "'some pair is related'" if not universal and positive else "'no pair is related'" if universal else "'some pair is not related'"),
+                    "%s:%s" % (FILE, q.get("l")))
+            # context entries by name: the receiver chain of the quantifier zips two map iterations
+            chain, cur = [], q["recv"]
+            while isinstance(cur, dict) and cur.get("k") == "MethodCall":
+                chain.append(cur.get("method"))
+                if cur.get("method") == "zip":
+                    both = [cur["recv"]] + list(cur.get("args", []))
+                    maps = [x for x in both if find_hir(x, lambda y: y.get("k") == "MethodCall" and y.get("method") in ("values", "iter", "keys", "into_iter")) or True]
+                    tys = [F.ty(h, strip(x).get("t")) if strip(x).get("t") is not None else "" for x in both]
+                    if all(re.search(r"collections::(btree::map|hash::map|btree_map|hash_map)::", t_) or "BTreeMap" in t_ or "HashMap" in t_ for t_ in tys):
+                        names_cmp = find_hir(clo["body"], lambda y: y.get("k") == "Binary" and y.get("op") == "==")
+                        if not names_cmp:
+                            rep.violation(rid, "by-name:%s" % nm, "%s pairs the entries of two context types by position (`zip` of two map iterations, line %s) and never compares their "
+                                          "names: context<a: number> and context<b: number> become related" % (nm, q.get("l")), "%s:%s" % (FILE, q.get("l")))
+                cur = cur.get("recv")
+    if not n:
+        rep.ok(rid, "quantifier", "no component relation is written with all / any (loops with early returns are judged by R16.2 / R16.3)")
 
 
 def arity_rule(F, rep, fns, helper):
